@@ -221,11 +221,11 @@ def run(tier, seed, only=None):
                    "NumPy indexing semantics (boolean mask, slice clipping, assignment broadcasting) as modelled in "
                    "C11CMap.v (key_idx, win_bounds, window_assign); differentially tested by the correspondence"]
     ck.assumptions += ["coordinates are exact rationals in the model (the exact values of the float64 coordinates); "
-                       "float rounding of c/step is not modelled, generated cases stay away from rounding ties except "
-                       "exactly representable half-step origins",
-                       "theorems marked _partial hold under wf (zero grid offset: |origin/step| < 1/2 per axis) and "
-                       "the rectangle guard for slice keys; outside these strata the faithful model refutes the "
-                       "property (see _refuted theorems and known findings)",
+                       "float rounding of (c - min c)/step is not modelled (for grid coordinates the quotient is "
+                       "an integer up to rounding, far from the rounding ties of np.around)",
+                       "the selection theorems hold under wf (array lengths agree, every coordinate axis is a regular "
+                       "grid: proved for every exact grid with any origin and any positive step) and, for phase keys "
+                       "only, a phase list in which no phase is itself called 'indexed'",
                        "Rotation.__getitem__ re-normalises quaternions: rotations are compared to 1e-12",
                        "str.lower() modelled for ASCII only"]
     if not ck.step_sanity():
@@ -261,29 +261,32 @@ def run(tier, seed, only=None):
     for f in out["fails"]:
         ck.failure(f["sig"], f["what"], f["replay"])
     wit = out.get("witnesses", {})
-    gone = [k for k, v in wit.items() if not v["reproduced"]]
-    if gone:
-        ck.notes.append("refuted-witnesses no longer reproduce on the implementation: " + ", ".join(gone))
-        print("NOTE: property=C11 finding(s) no longer reproduce: " + ", ".join(gone))
-    ck.cov["witnesses_replayed"] = wit
+    # the former refutation witnesses are regression histories now: a failure on one of them is in out["fails"]
+    # (reported above, a VIOLATION since the known-findings entries are of kind "fixed")
+    ck.cov["regressions_replayed"] = wit
     ck.cov["exhaustive"] = False
     ck.cov["bounded_exhaustive"] = (
         "thorough tier: maps 2x2,2x3,3x2,3x3,(3,),(4,) x all op sequences of length<=3 over a 7-letter alphabet "
         "(support for the model's validation, not the theorem)") if tier != "quick" else "not run in quick tier"
-    ck.cov["partial_clauses"] = ["C11_selection_history_partial", "C11_selection_step_partial", "C11_shape_bbox_partial",
-                                 "C11_map_data_placement_partial"]
-    ck.cov["refuted_clauses"] = ["C11_mask_then_slice_refuted", "C11_stride_then_slice_refuted", "C11_origin_refuted",
-                                 "C11_origin_map_data_refuted", "C11_half_step_refuted",
-                                 "C11_map_data_array3_refuted", "C11_single_point_refuted"]
-    ck.cov["rule"] = ("8 fixed witness histories (the _refuted theorems, replayed on the implementation) + random "
+    ck.cov["partial_clauses"] = []
+    ck.cov["refuted_clauses"] = []
+    ck.cov["repaired_clauses"] = {
+        "C11_mask_then_slice_refuted, C11_stride_then_slice_refuted":
+            "C11_slice_selection, C11_selection_history (no rectangle guard), C11_slice_path_exact, C11_never_absent_model",
+        "C11_origin_refuted, C11_origin_map_data_refuted, C11_half_step_refuted":
+            "C11_any_origin_and_step, C11_exact_grid_wellformed (any origin), C11_shape_bbox, C11_map_data_placement",
+        "C11_map_data_array3_refuted": "C11_map_data_placement (any item kind)",
+        "C11_single_point_refuted": "C11_row_col_0d, C11_map_data_placement (no oshape <> [] guard)"}
+    ck.cov["rule"] = ("10 fixed regression histories (the former _refuted witnesses, replayed on the implementation) + random "
                       "histories of 1-6 selections (tuple/int/slice keys incl. negative/strided/out-of-range/too-many "
                       "indices, boolean masks incl. length-1 and wrong length, phase names incl. indexed/not_indexed/"
-                      "unknown/tuples) generated adaptively from the reference state on maps of random 2-D/1-D-x/1-D-y "
-                      "shape, dyadic and non-dyadic steps, origins zero / within half a step / integer offset / exact "
+                      "unknown/tuples) generated adaptively from the reference state on maps of random 2-D/1-D-x/1-D-y/"
+                      "single-point shape, dyadic and non-dyadic steps, origins zero / within half a step / integer offset / exact "
                       "half step, 7 phase-id patterns, 1 or 3 rotations per point, property sets {p,q},{p},{}, optional "
                       "initial is_in_data; after EVERY step all observables (id,shape,x,y,phase_id,rotations,props,row,"
                       "col,get_map_data of float/int/array item) are compared model-vs-implementation inside Coq and "
-                      "checked against the numpy reference oracle; distinct = distinct (map spec, op list); "
+                      "checked against the numpy reference oracle (which also checks that a 2-D (n,3) item still gives "
+                      "one RGB triple per point); distinct = distinct (map spec, op list); "
                       "non-trivial = at least one selection applied")
     return ck.finish()
 
